@@ -262,6 +262,8 @@ impl Resolver {
 //@   ret r
 //@   spec
         requires
+            sylt_parser::pa_shape(*assignable), //# C07 assignable.pre.parser_tree_shape
+
             old(self).inv(), //# C07 assignable.pre.ids_in_range
 
         ensures
@@ -273,6 +275,7 @@ impl Resolver {
                 && r->Ok_0->Call_args@.len() == assignable.kind->ArrowCall_2@.len() + 1, //# C14 assignable.arrow_call_becomes_call_with_extra_first_argument
             final(self).inv(), //# C07 assignable.keeps_ids_in_range
             r is Ok ==> e_up(r->Ok_0, final(self).variables@.len() as int), //# C07,C09 assignable.result_ids_in_range
+            r is Ok ==> e_shape(r->Ok_0), //# C07 assignable.result_shape
 //@   endspec
 //@   ghost entry
         broadcast use group_up;
@@ -281,12 +284,14 @@ impl Resolver {
                 invariant self.stack@ == old(self).stack@, self.frame(old(self)),
                     old(self).stack@.len() > 0 ==> forall|i: int| 0 <= i < args@.len() ==> e_nodecl(#[trigger] args@[i]),
                     self.inv(), e_up(*function, self.variables@.len() as int), forall|i: int| 0 <= i < args@.len() ==> e_up(#[trigger] args@[i], self.variables@.len() as int),
+                    forall|i: int| 0 <= i < args@.len() ==> e_shape(#[trigger] args@[i]),
 //@   endloop
 //@   loop 2 binder it2
                 invariant self.stack@ == old(self).stack@, self.frame(old(self)),
                     args@.len() == it2.index@ + 1, it2.seq().len() == assignable.kind->ArrowCall_2@.len(),
                     old(self).stack@.len() > 0 ==> forall|i: int| 0 <= i < args@.len() ==> e_nodecl(#[trigger] args@[i]),
                     self.inv(), e_up(*function, self.variables@.len() as int), forall|i: int| 0 <= i < args@.len() ==> e_up(#[trigger] args@[i], self.variables@.len() as int),
+                    forall|i: int| 0 <= i < args@.len() ==> e_shape(#[trigger] args@[i]),
 //@   endloop
 //@ end
 
@@ -298,6 +303,8 @@ impl Resolver {
 //@   ret r
 //@   spec
         requires
+            forall|i: int| 0 <= i < expr@.len() ==> sylt_parser::pe_shape(#[trigger] expr@[i]), //# C07 collection.pre.parser_tree_shape
+
             old(self).inv(), //# C07 collection.pre.ids_in_range
 
         ensures
@@ -307,6 +314,7 @@ impl Resolver {
             r is Ok && old(self).stack@.len() > 0 ==> e_nodecl(r->Ok_0), //# C07 collection.no_nested_declaration
             final(self).inv(), //# C07 collection.keeps_ids_in_range
             r is Ok ==> e_up(r->Ok_0, final(self).variables@.len() as int), //# C07,C09 collection.result_ids_in_range
+            r is Ok ==> e_shape(r->Ok_0), //# C07 collection.result_shape
 //@   endspec
 //@   ghost entry
         broadcast use group_up;
@@ -315,6 +323,7 @@ impl Resolver {
             invariant self.stack@ == old(self).stack@, self.frame(old(self)),
                 old(self).stack@.len() > 0 ==> forall|i: int| 0 <= i < values@.len() ==> e_nodecl(#[trigger] values@[i]),
                 self.inv(), forall|i: int| 0 <= i < values@.len() ==> e_up(#[trigger] values@[i], self.variables@.len() as int),
+                forall|i: int| 0 <= i < values@.len() ==> e_shape(#[trigger] values@[i]),
 //@   endloop
 //@ end
 
@@ -325,6 +334,8 @@ impl Resolver {
 //@   ret r
 //@   spec
         requires
+            sylt_parser::pe_shape(*a), sylt_parser::pe_shape(*b), !(op is Nop), //# C07 binop.pre.parser_tree_shape
+
             old(self).inv(), //# C07 binop.pre.ids_in_range
 
         ensures
@@ -334,6 +345,7 @@ impl Resolver {
             r is Ok && old(self).stack@.len() > 0 ==> e_nodecl(r->Ok_0), //# C07 binop.no_nested_declaration
             final(self).inv(), //# C07 binop.keeps_ids_in_range
             r is Ok ==> e_up(r->Ok_0, final(self).variables@.len() as int), //# C07,C09 binop.result_ids_in_range
+            r is Ok ==> e_shape(r->Ok_0), //# C07 binop.result_shape
 //@   endspec
 //@   ghost entry
         broadcast use group_up;
@@ -347,6 +359,8 @@ impl Resolver {
 //@   ret r
 //@   spec
         requires
+            sylt_parser::pe_shape(*a), //# C07 uniop.pre.parser_tree_shape
+
             old(self).inv(), //# C07 uniop.pre.ids_in_range
 
         ensures
@@ -356,6 +370,7 @@ impl Resolver {
             r is Ok && old(self).stack@.len() > 0 ==> e_nodecl(r->Ok_0), //# C07 uniop.no_nested_declaration
             final(self).inv(), //# C07 uniop.keeps_ids_in_range
             r is Ok ==> e_up(r->Ok_0, final(self).variables@.len() as int), //# C07,C09 uniop.result_ids_in_range
+            r is Ok ==> e_shape(r->Ok_0), //# C07 uniop.result_shape
 //@   endspec
 //@   ghost entry
         broadcast use group_up;
@@ -369,6 +384,8 @@ impl Resolver {
 //@   ret r
 //@   spec
         requires
+            sylt_parser::pib_shape(*branch), //# C07 if_branch.pre.parser_tree_shape
+
             old(self).inv(), //# C07 if_branch.pre.ids_in_range
 
         ensures
@@ -378,6 +395,7 @@ impl Resolver {
             r is Ok && old(self).stack@.len() > 0 ==> ib_nodecl(r->Ok_0), //# C07 if_branch.no_nested_declaration
             final(self).inv(), //# C07 if_branch.keeps_ids_in_range
             r is Ok ==> ib_up(r->Ok_0, final(self).variables@.len() as int), //# C07,C09 if_branch.result_ids_in_range
+            r is Ok ==> ib_shape(r->Ok_0), //# C07 if_branch.result_shape
 //@   endspec
 //@   ghost entry
         broadcast use group_up;
@@ -403,6 +421,8 @@ impl Resolver {
 //@   endrewrite
 //@   spec
         requires
+            sylt_parser::pcb_shape(*branch), //# C07 case_branch.pre.parser_tree_shape
+
             old(self).inv(), //# C07 case_branch.pre.ids_in_range
 
         ensures
@@ -414,6 +434,7 @@ impl Resolver {
                 && final(self).variables@[r->Ok_0.variable->Some_0 as int].kind is Const, //# C04 case_branch.binding_is_constant
             final(self).inv(), //# C07 case_branch.keeps_ids_in_range
             r is Ok ==> cb_up(r->Ok_0, final(self).variables@.len() as int), //# C07,C09 case_branch.result_ids_in_range
+            r is Ok ==> cb_shape(r->Ok_0), //# C07 case_branch.result_shape
 //@   endspec
 //@   ghost entry
         broadcast use group_up;
@@ -423,6 +444,7 @@ impl Resolver {
                 old(self).stack@.len() > 0 ==> all_nodecl(body@),
                 *variable is Some ==> ((*variable)->Some_0 as int) < self.variables@.len() && self.variables@[(*variable)->Some_0 as int].kind is Const,
                 self.inv(), all_up(body@, self.variables@.len() as int),
+                forall|i: int| 0 <= i < body@.len() ==> s_shape(#[trigger] body@[i]),
 //@   endloop
 //@ end
 
@@ -434,6 +456,8 @@ impl Resolver {
 //@   ret r
 //@   spec
         requires
+            sylt_parser::pall_shape(parser_stmts@), //# C07 block.pre.parser_tree_shape
+
             old(self).inv(), //# C07 block.pre.ids_in_range
 
         ensures
@@ -442,6 +466,7 @@ impl Resolver {
             r is Ok && old(self).stack@.len() > 0 ==> all_nodecl(r->Ok_0@), //# C07 block.no_nested_declaration
             final(self).inv(), //# C07 block.keeps_ids_in_range
             r is Ok ==> all_up(r->Ok_0@, final(self).variables@.len() as int), //# C07,C09 block.result_ids_in_range
+            r is Ok ==> forall|i: int| 0 <= i < r->Ok_0@.len() ==> s_shape(#[trigger] r->Ok_0@[i]), //# C07 block.result_shape
 //@   endspec
 //@   ghost entry
         broadcast use group_up;
@@ -450,6 +475,7 @@ impl Resolver {
             invariant is_prefix(old(self).stack@, self.stack@), self.frame(old(self)),
                 old(self).stack@.len() > 0 ==> all_nodecl(stmts@),
                 self.inv(), all_up(stmts@, self.variables@.len() as int),
+                forall|i: int| 0 <= i < stmts@.len() ==> s_shape(#[trigger] stmts@[i]),
 //@   endloop
 //@ end
 
@@ -461,6 +487,8 @@ impl Resolver {
 //@   ret r
 //@   spec
         requires
+            sylt_parser::pe_shape(*expr), //# C07 expression.pre.parser_tree_shape
+
             old(self).inv(), //# C07 expression.pre.ids_in_range
 
         ensures
@@ -470,19 +498,24 @@ impl Resolver {
             r is Ok && old(self).stack@.len() > 0 ==> e_nodecl(r->Ok_0), //# C07 expression.no_nested_declaration
             final(self).inv(), //# C07 expression.keeps_ids_in_range
             r is Ok ==> e_up(r->Ok_0, final(self).variables@.len() as int), //# C07,C09 expression.result_ids_in_range
+            r is Ok ==> e_shape(r->Ok_0), //# C07 expression.result_shape
+            r is Ok && expr.kind is Int ==> r->Ok_0 is Int, //# C07 expression.int_literal_stays_int_literal
 //@   endspec
 //@   ghost entry
         broadcast use group_up;
 //@   endghost
-//@   loop 1
+//@   loop 1 binder itb
                     invariant self.stack@ == old(self).stack@, self.frame(old(self)),
                         old(self).stack@.len() > 0 ==> forall|i: int| 0 <= i < branches@.len() ==> ib_nodecl(#[trigger] branches@[i]),
                         self.inv(), forall|i: int| 0 <= i < branches@.len() ==> ib_up(#[trigger] branches@[i], self.variables@.len() as int),
+                        forall|i: int| 0 <= i < branches@.len() ==> ib_shape(#[trigger] branches@[i]),
+                        itb.seq().len() == parser_branches@.len(), branches@.len() == itb.index@,
 //@   endloop
 //@   loop 2
                     invariant self.stack@ == old(self).stack@, self.frame(old(self)),
                         old(self).stack@.len() > 0 ==> forall|i: int| 0 <= i < branches@.len() ==> cb_nodecl(#[trigger] branches@[i]),
                         self.inv(), e_up(*to_match, self.variables@.len() as int), forall|i: int| 0 <= i < branches@.len() ==> cb_up(#[trigger] branches@[i], self.variables@.len() as int),
+                        forall|i: int| 0 <= i < branches@.len() ==> cb_shape(#[trigger] branches@[i]),
 //@   endloop
 //@   loop 3
                     invariant is_prefix(old(self).stack@, self.stack@), self.frame(old(self)), ss == old(self).stack@.len(),
@@ -494,6 +527,7 @@ impl Resolver {
                     invariant self.stack@ == old(self).stack@, self.frame(old(self)),
                         old(self).stack@.len() > 0 ==> fields_nodecl(fields@),
                         self.inv(), (blob as int) < self.variables@.len(), (self_var as int) < self.variables@.len(), fields_up(fields@, self.variables@.len() as int),
+                        forall|i: int| 0 <= i < fields@.len() ==> e_shape((#[trigger] fields@[i]).1),
 //@   endloop
 //@ end
 
@@ -525,6 +559,8 @@ impl Resolver {
 //@   endrewrite
 //@   spec
         requires
+            sylt_parser::ps_shape(*stmt), //# C07 statement.pre.parser_tree_shape
+
             old(self).inv(), //# C07 statement.pre.ids_in_range
 
         ensures
@@ -543,6 +579,7 @@ impl Resolver {
             r is Ok && r->Ok_0 is Some ==> s_up(r->Ok_0->Some_0, final(self).variables@.len() as int), //# C07,C09 statement.result_ids_in_range
             r is Ok && stmt.kind is Definition && old(self).stack@.len() > 0 && !(stmt.kind->Definition_value.kind is Function) ==>
                 e_up(r->Ok_0->Some_0->Definition_value, r->Ok_0->Some_0->Definition_var as int), //# C09 statement.initialiser_cannot_see_the_variable_it_defines
+            r is Ok && r->Ok_0 is Some ==> s_shape(r->Ok_0->Some_0), //# C07 statement.result_shape
 //@   endspec
 //@   ghost entry
         broadcast use group_up;
